@@ -61,7 +61,7 @@ type Prop struct {
 
 var registry = map[string]*Prop{}
 
-func Register(p *Prop) { registry[p.ID] = p }
+func Register(p *Prop)       { registry[p.ID] = p }
 func Lookup(id string) *Prop { return registry[id] }
 func IDs() []string {
 	var ids []string
@@ -105,21 +105,21 @@ type FoundCase struct {
 
 // WorkerResult is what one worker writes.
 type WorkerResult struct {
-	Shard        int              `json:"shard"`
-	Enumerated   int              `json:"enumerated"`
-	Evaluations  int              `json:"evaluations"`
-	Transitions  int              `json:"transitions"`
-	ExtraStates  int              `json:"extra_states"`
-	Keys         []uint64         `json:"keys"`
-	NontrivKeys  []uint64         `json:"nontriv_keys"`
-	Found        []FoundCase      `json:"found"`
-	Flaky        []FoundCase      `json:"flaky"`
-	HarnessErrs  map[string]int   `json:"harness_errs"`
-	Samples      []json.RawMessage `json:"samples"`
-	Counters     map[string]int   `json:"counters"`
-	Capped       bool             `json:"capped"`
-	WallS        float64          `json:"wall_s"`
-	Fatal        string           `json:"fatal,omitempty"`
+	Shard       int               `json:"shard"`
+	Enumerated  int               `json:"enumerated"`
+	Evaluations int               `json:"evaluations"`
+	Transitions int               `json:"transitions"`
+	ExtraStates int               `json:"extra_states"`
+	Keys        []uint64          `json:"keys"`
+	NontrivKeys []uint64          `json:"nontriv_keys"`
+	Found       []FoundCase       `json:"found"`
+	Flaky       []FoundCase       `json:"flaky"`
+	HarnessErrs map[string]int    `json:"harness_errs"`
+	Samples     []json.RawMessage `json:"samples"`
+	Counters    map[string]int    `json:"counters"`
+	Capped      bool              `json:"capped"`
+	WallS       float64           `json:"wall_s"`
+	Fatal       string            `json:"fatal,omitempty"`
 }
 
 func hash64(s string) uint64 {
